@@ -1130,7 +1130,10 @@ impl SubRule {
                     } else {
                         res_word.syllables.last_mut().unwrap().segments.push_back(*seg);
                         if let Some(m) = mods {
-                            let lc = res_word.apply_seg_mods(&self.alphas, m, pos, state.position)?;
+                            // `pos` is past the end of the word, the segment went to the end of the last syllable
+                            let last_syll = res_word.syllables.len() - 1;
+                            let seg_pos = SegPos::new(last_syll, res_word.syllables[last_syll].segments.len() - 1);
+                            let lc = res_word.apply_seg_mods(&self.alphas, m, seg_pos, state.position)?;
                             if lc > 0 {
                                 pos.seg_index += lc.unsigned_abs() as usize;
                             }
